@@ -40,7 +40,10 @@ func execRelSam(c *Case) (a, b result) {
 		defer os.Remove(f)
 		s, e := atoi(c.Get("start")), atoi(c.Get("end"))
 		argsNew := []string{"sam", "toMultiAlign", "-s", f, "-t", c.Get("threads")}
-		argsOld := []string{"sam", "toMultiAlign", "-s", f, "-t", c.Get("threads"), "--trim"}
+		argsOld := []string{"sam", "toMultiAlign", "-s", f, "-t", c.Get("threads")}
+		if idSeed(c.ID)%2 == 0 { // the old coordinates count with and without the old --trim switch
+			argsOld = append(argsOld, "--trim")
+		}
 		if s != -1 {
 			argsNew = append(argsNew, "--start", fmt.Sprint(s))
 			argsOld = append(argsOld, "--trimstart", fmt.Sprint(s-1))
